@@ -241,7 +241,7 @@ func (e *Engine) assumeRangeDeep(reach string, v Val, depth int) {
 		for i := 0; i < u.NumFields(); i++ {
 			ft := u.Field(i).Type()
 			switch ft.Underlying().(type) {
-			case *types.Basic, *types.Slice, *types.Struct:
+			case *types.Basic, *types.Slice, *types.Struct, *types.Pointer:
 				e.assumeRangeDeep(reach, Val{term: fmt.Sprintf("(%s_f%d %s)", sn, i, v.term), typ: ft}, depth+1)
 			}
 		}
@@ -320,7 +320,11 @@ func (f *frame) frameObligation(r retPoint, st0 *State, ri int) {
 		case a == "*":
 			star = true
 		case strings.HasPrefix(a, "H_") || strings.HasPrefix(a, "HA_"):
-			whole[a] = true
+			ca, ok := e.canonHeap(a)
+			if !ok {
+				panic("assigns: unknown heap " + a)
+			}
+			whole[ca] = true
 		default:
 			pn, fld := a, "*"
 			if strings.HasPrefix(a, "*") {
